@@ -4,7 +4,7 @@ from kv import Case, xn, xb, xl, xlist, xopt, xbool
 
 ID = "C07"
 MODULE = "C07"
-IMPORTS = "Bytes RustInt Http1Read Http1ReadProofs Http1ReadParseProofs Http1ReadLocalProofs Http1ReadLfProofs"
+IMPORTS = "Bytes RustInt Http1Read Http1ReadOld Http1ReadProofs Http1ReadParseProofs Http1ReadLocalProofs Http1ReadLfProofs Http1ReadBodyProofs"
 PROFILES = ("dev", "nochk")
 KERNEL_SAMPLE = 30
 THEOREMS = []   # filled in below (kept at the end of the file for readability)
@@ -15,35 +15,71 @@ THRESHOLDS = [511, 512, 513, 1023, 1024, 1025, 2047, 2048, 2049, 4095, 4096, 409
               15872, 15873, 16127, 16128, 16129, 16130, 16255, 16383, 16384, 16385]
 
 METHODS = [b"GET", b"HEAD", b"POST", b"PUT", b"DELETE", b"TRACE", b"OPTIONS", b"CONNECT", b"PATCH", b"COPY", b"LOCK",
-           b"MKCOL", b"MOVE", b"UNLOCK", b"GETX", b"PUT-IT", b"POST.1", b"COPY_2"]
-BODY_METHODS = [b"POST", b"PUT", b"DELETE", b"PATCH", b"COPY", b"MKCOL", b"POSTS"]
+           b"MKCOL", b"MOVE", b"UNLOCK", b"GETX", b"PUT-IT", b"POST.1", b"COPY_2",
+           # any token of up to 7 bytes is a method (extension methods)
+           b"PURGE", b"REPORT", b"SEARCH", b"QUERY", b"get", b"A", b"x-y.z!~", b"BREW", b"M-SRCH"]
+BODY_METHODS = [b"POST", b"PUT", b"DELETE", b"PATCH", b"COPY", b"MKCOL", b"POSTS", b"PURGE", b"REPORT", b"QUERY"]
 TARGETS = [b"/", b"/a", b"/index.html", b"/a/b/c.txt", b"/x?y=1", b"/?q", b"/a?", b"/search?q=a+b&lang=sv", b"/a%20b",
            b"/~u/_-.!$&'()*+,;=:@", b"/a//b/../c", b"/\xc3\xa9", b"/a?k=\xc3\xa5", b"/{\"j\":1}", b"/a#frag", b"/a?b#c", b"?x", b"#f",
            b"/a|b", b"/a?b|c"]
 NAMES = [b"Host", b"host", b"HOST", b"Accept", b"accept-encoding", b"User-Agent", b"X-A", b"x-b", b"Cookie", b"Range",
          b"If-None-Match", b"X_under", b"x.dot", b"a", b"Z9", b"content-type", b"Connection", b"Cache-Control", b"x!#$%&'*+-.^_`|~"]
 VALUES = [b"", b"a", b"b c", b"text/html; q=0.9, */*", b"Mozilla/5.0 (X11; Linux x86_64)", b"\"quoted\"", b"a:b", b":x", b"x  y",
-          b"keep-alive", b"bytes=0-1", b"trailing ", b"~!@#$%^&*()_+", b"1", b"W/\"abc\""]
+          b"keep-alive", b"bytes=0-1", b"trailing", b"~!@#$%^&*()_+", b"1", b"W/\"abc\"", b"tab\tinside", b"a \t b", b"caf\xc3\xa9", b"\xff\x80"]
+OWS_STRINGS = [b"", b"", b" ", b"\t", b"  ", b"\t\t", b" \t", b"\t ", b" \t \t  "]
 HOSTS = [b"example.org", b"localhost", b"localhost:8080", b"a", b"EXAMPLE.com", b"[::1]", b"[::1]:80", b"127.0.0.1", b"sub.dom-ain.example",
          b"user@h", b"h:80:90", b"a b", b"h/evil", b"", b"h%41", b"[::1", b"x@", b"h?x"]
 
 
-def hline(name, sp, value):
-    return (name, sp, value)
+def hline(name, sp, value, pre=b"", post=b"", lf=False):
+    """name ":" SP^sp pre value post (CRLF | LF): pre/post = further optional whitespace (spaces, tabs)"""
+    if not pre and not post and not lf:
+        return (name, sp, value)
+    return (name, sp, value, pre, post, lf)
 
 
-def print_head(method, target, v11, hlines):
-    out = method + b" " + target + b" " + (b"HTTP/1.1" if v11 else b"HTTP/1.0") + b"\r\n"
-    for n, sp, v in hlines:
-        out += n + b":" + b" " * sp + v + b"\r\n"
-    return out + b"\r\n"
+def hl6(h):
+    return h if len(h) == 6 else (h[0], h[1], h[2], b"", b"", False)
+
+
+def print_hline(h):
+    n, sp, v, pre, post, lf = hl6(h)
+    return n + b":" + b" " * sp + pre + v + post + (b"\n" if lf else b"\r\n")
+
+
+def print_head(method, target, v11, hlines, l0=False, lb=False):
+    out = method + b" " + target + b" " + (b"HTTP/1.1" if v11 else b"HTTP/1.0") + (b"\n" if l0 else b"\r\n")
+    for h in hlines:
+        out += print_hline(h)
+    return out + (b"\n" if lb else b"\r\n")
+
+
+def x_hline(h):
+    if len(h) == 3:
+        return xl(xb(h[0]), xn(h[1]), xb(h[2]))
+    return xl(xb(h[0]), xn(h[1]), xb(h[2]), xb(h[3]), xb(h[4]), xbool(h[5]))
 
 
 def x_greq(g):
     if g is None:
         return xopt(None)
-    method, target, v11, hlines = g
-    return xopt(xl(xb(method), xb(target), xbool(v11), xlist([xl(xb(n), xn(sp), xb(v)) for n, sp, v in hlines])))
+    if len(g) == 4:
+        method, target, v11, hlines = g
+        return xopt(xl(xb(method), xb(target), xbool(v11), xlist([x_hline(h) for h in hlines])))
+    method, target, v11, hlines, l0, lb = g
+    return xopt(xl(xb(method), xb(target), xbool(v11), xlist([x_hline(h) for h in hlines]), xbool(l0), xbool(lb)))
+
+
+def decorate(rng, g, lf_too=True):
+    """the same request with random optional whitespace around the values and (lf_too) random bare-LF line ends"""
+    method, target, v11, hlines = g[:4]
+    out = []
+    for h in hlines:
+        n, sp, v = h[0], h[1], h[2]
+        pre = rng.choice(OWS_STRINGS)
+        post = rng.choice(OWS_STRINGS) if v else b""      # whitespace after an empty value is whitespace before it
+        out.append(hline(n, sp, v, pre, post, lf_too and rng.random() < 0.3))
+    return (method, target, v11, out, lf_too and rng.random() < 0.2, lf_too and rng.random() < 0.2)
 
 
 def mkreq(stream, sched, kind, https=False, dh=None, max_len=MAXLEN, mode=0, limit=BIG_LIMIT, g=None, profile="dev"):
@@ -58,8 +94,46 @@ def mkbody(early, cl, limit, stream, sched, kind, mode=0, profile="dev"):
 
 
 def mkhdr(block, hlines, kind, profile="dev"):
-    x = xl(xb(block), xopt(None if hlines is None else xlist([xl(xb(n), xn(sp), xb(v)) for n, sp, v in hlines])))
+    x = xl(xb(block), xopt(None if hlines is None else xlist([x_hline(h) for h in hlines])))
     return Case("h1.headers", x, "h1.headers.spec", {"kind": kind}, profile)
+
+
+def mkpoll(early, cl, stream, sched, ops, kind, mode=0, profile="dev"):
+    """ops: int = read with that window, ("rtb", limit) = read_to_bytes(limit), "drain" """
+    xo = []
+    for o in ops:
+        if o == "drain":
+            xo.append(xlist([]))
+        elif isinstance(o, tuple):
+            xo.append(xl(xn(o[1])))
+        else:
+            xo.append(xn(o))
+    x = xl(xb(early), xn(cl), xn(mode), xb(stream), xlist([xn(b) for b in sched]), xlist(xo))
+    return Case("h1.poll", x, "h1.poll.spec", {"kind": kind}, profile)
+
+
+def x_steps(steps):
+    return xlist([xb(st) if isinstance(st, (bytes, bytearray)) else xn(st) for st in steps])
+
+
+def cut_steps(s, sched):
+    out, p = [], 0
+    for b in sched:
+        if p >= len(s):
+            break
+        out.append(s[p:p + b])
+        p += b
+    return out
+
+
+def mkaccept(steps, kind, dh=None, limit=BIG_LIMIT, end=1, g=None):
+    x = xl(xopt(None if dh is None else xb(dh)), x_steps(steps), xn(limit), xn(end), x_greq(g))
+    return Case("h1.accept", x, "h1.accept.spec", {"kind": kind}, "dev")
+
+
+def mkecho(steps, kind, limit=BIG_LIMIT, end=1, g=None):
+    x = xl(x_steps(steps), xn(limit), xn(end), x_greq(g))
+    return Case("h1.echo", x, "h1.echo.spec", {"kind": kind}, "dev")
 
 
 def body_bytes(n, salt=0):
@@ -154,7 +228,7 @@ def generate(rng, tier):
         s = print_head(*g) + tail
         if len(s) > 120 and quick:
             continue
-        dh = None if any(n.lower() == b"host" for n, _, _ in g[3]) else b"default.host"
+        dh = None if any(h[0].lower() == b"host" for h in g[3]) else b"default.host"
         cases.append(mkreq(s, [len(s)], "cut", dh=dh, g=g))
         for c in range(1, len(s)):
             cases.append(mkreq(s, [c, len(s) - c], "cut", dh=dh, g=g, profile="nochk" if c % 5 == 0 else "dev"))
@@ -166,7 +240,7 @@ def generate(rng, tier):
     # ---- the same bytes with bare-LF line ends (the code accepts them): every cut position, segmentation-blind oracle
     for g, tail in shorts[:5]:
         s = print_head(*g) + tail
-        dh = None if any(n.lower() == b"host" for n, _, _ in g[3]) else b"default.host"
+        dh = None if any(h[0].lower() == b"host" for h in g[3]) else b"default.host"
         for v in (s.replace(b"\r\n", b"\n"), s.replace(b"\r\n", b"\n", 1), s.replace(b"\r\n\r\n", b"\n\r\n"), s.replace(b"\r\n\r\n", b"\r\n\n")):
             if v == s:
                 continue
@@ -195,6 +269,41 @@ def generate(rng, tier):
             sched = sched[:rng.randrange(0, len(sched))]        # the peer stops early
         cases.append(mkreq(s, sched, "grammar", https=rng.random() < 0.3, dh=dh, mode=rng.choice([0, 0, 0, 2]), limit=limit, g=g,
                            profile=rng.choice(PROFILES)))
+
+    # ---- the general header line: optional whitespace (spaces, tabs) around the values, bare-LF line ends, any method token --
+    corpus_ows = [
+        ((b"POST", b"/", True, [hline(b"Host", 1, b"a"), hline(b"Content-Length", 1, b"3", b"", b" ")]), b"abc" + NEXT),
+        ((b"POST", b"/", True, [hline(b"Host", 1, b"a"), hline(b"Content-Length", 0, b"3", b"\t", b"")]), b"abc" + NEXT),
+        ((b"GET", b"/", True, [hline(b"Host", 1, b"a", b"", b" "), hline(b"X", 1, b"v", b"\t ", b" \t"), hline(b"Y", 0, b"", b"\t "), hline(b"Z", 0, b"")]), b""),
+        ((b"PURGE", b"/x", True, [hline(b"Host", 1, b"a")]), b""),
+        ((b"get", b"/x", True, [hline(b"Host", 1, b"a")]), b""),
+        ((b"A", b"/", False, [hline(b"Host", 1, b"a")]), NEXT),
+        ((b"REPORT", b"/r", True, [hline(b"Host", 1, b"a"), hline(b"content-length", 1, b"4", b"", b"\t\t", True)], True, True), b"bodyNEXT"),
+    ]
+    for g, tail in corpus_ows:
+        s = print_head(*g) + tail
+        for sc in ([len(s)], [1] * len(s), [len(print_head(*g)), len(s)], [7, 9, len(s)]):
+            cases.append(mkreq(s, sc, "corpus-ows", g=g))
+    g = (b"PURGE", b"/p", True, [hline(b"Host", 1, b"ex.org", b"\t", b" \t"), hline(b"Content-Length", 0, b"3", b"\t ", b" ", True),
+                                  hline(b"X-E", 0, b"", b" \t")], False, True)
+    s = print_head(*g) + b"abc" + NEXT[:9]
+    for c in range(1, len(s)):
+        cases.append(mkreq(s, [c, len(s) - c], "cut-ows", g=g, profile="nochk" if c % 5 == 0 else "dev"))
+    nows = 400 if quick else 20000
+    for _ in range(nows):
+        m = rng.choice(METHODS)
+        cl = rng.choice([None, 0, 1, 3, 31, 100]) if m in BODY_METHODS or rng.random() < 0.2 else None
+        has_host = rng.random() < 0.9
+        hl = rand_headers(rng, with_host=has_host, cl=cl)
+        g = decorate(rng, (m, rng.choice(TARGETS), rng.random() < 0.7, hl), lf_too=rng.random() < 0.5)
+        head = print_head(*g)
+        have = rng.choice([cl or 0, cl or 0, (cl or 0) + 10, max(0, (cl or 0) - 2)])
+        s = head + body_bytes(have, rng.randrange(50)) + (NEXT if rng.random() < 0.5 else b"")
+        sched = rand_sched(rng, len(s))
+        if rng.random() < 0.1 and sched:
+            sched = sched[:rng.randrange(0, len(sched))]
+        cases.append(mkreq(s, sched, "ows", https=rng.random() < 0.2, dh=None if has_host else rng.choice([None, b"d.host"]),
+                           mode=rng.choice([0, 0, 2]), limit=rng.choice([BIG_LIMIT, BIG_LIMIT, 2, 50]), g=g, profile=rng.choice(PROFILES)))
 
     # ---- bad Host values / targets the http crate refuses (the URI assembly is modelled byte for byte) ----------
     for h in HOSTS:
@@ -279,6 +388,92 @@ def generate(rng, tier):
         cases.append(mkbody(total[:el], cl, rng.choice([BIG_LIMIT, BIG_LIMIT, cl // 2 + 1, 32, 31]), rest, rand_sched(rng, max(1, len(rest)), 8),
                             "body-random", mode=rng.choice([0, 0, 2]), profile=rng.choice(PROFILES)))
 
+    # ---- Http1Body as AsyncRead: any sequence of read windows / read_to_bytes / drain ---------------------------------------
+    cases.append(mkpoll(b"", 3, b"abcGET /next", [100], [100, 100, 100], "corpus-poll"))
+    cases.append(mkpoll(b"abcGET /n", 3, b"ext", [100], [100, 100], "corpus-poll"))
+    cases.append(mkpoll(b"ab", 5, b"cdeGET", [100], [1, 100, 100, 100], "corpus-poll"))
+    cases.append(mkpoll(b"ab", 5, b"cdeGET", [100], [("rtb", 3), 100, "drain"], "corpus-poll"))
+    cases.append(mkpoll(b"ab", 5, b"cdeGET", [100], [1, "drain"], "corpus-poll"))
+    cases.append(mkpoll(b"", 5, b"abcdeXYZ!", [100], [3, ("rtb", 100), "drain"], "corpus-poll"))
+    cases.append(mkpoll(b"ab", 5, b"cdeXYZ!", [100], [1, ("rtb", 100), "drain"], "corpus-poll"))
+    cases.append(mkpoll(b"ab", 5, b"cdeXYZ!", [100], [("rtb", 0), 1, ("rtb", 3), 5, "drain"], "corpus-poll"))
+    cases.append(mkpoll(b"ab", 5, b"c", [100], [100, 100, 100], "corpus-poll", mode=0))
+    cases.append(mkpoll(b"ab", 5, b"c", [100], [100, 100, 100], "corpus-poll", mode=2))
+    cases.append(mkpoll(b"ab", 5, b"c", [100], [100, 100, "drain"], "corpus-poll", mode=1))
+    cases.append(mkpoll(b"ab", 5, b"c", [100], [100, "drain"], "corpus-poll", mode=0))
+    npoll = 300 if quick else 8000
+    for _ in range(npoll):
+        cl = rng.choice([0, 1, 2, 5, 31, 32, 33, 64, 100, 1000, 4095, 4096, 4097, 5000, 9000])
+        el = rng.randrange(0, cl + 10) if rng.random() < 0.8 else 0
+        total = body_bytes(cl + 60, rng.randrange(90))
+        rest = total[el:el + rng.choice([max(0, cl - el) + 33, max(0, cl - el) + 33, max(0, cl - el), max(0, cl - el - 2), 0])]
+        ops = []
+        for _ in range(rng.randrange(0, 9)):
+            r = rng.random()
+            if r < 0.75:
+                ops.append(rng.choice([0, 1, 1, 2, 3, 7, 31, 32, 100, 1000, 4096, 8192, 100000]))
+            elif r < 0.9:
+                ops.append(("rtb", rng.choice([0, 1, 5, 32, 100, BIG_LIMIT, BIG_LIMIT])))
+            else:
+                ops.append("drain")
+        if rng.random() < 0.5:
+            ops.append("drain")
+        cases.append(mkpoll(total[:el], cl, rest, rand_sched(rng, max(1, len(rest)), 8), ops, "poll",
+                            mode=rng.choice([0, 0, 0, 2]), profile=rng.choice(PROFILES)))
+
+    # ---- the real HttpConnection::accept / handle_connection on a loopback connection ------------------------------------
+    # head limit: the code's own 16 KiB
+    for size in ((16383, 16384, 16385) if quick else (8192, 16000, 16383, 16384, 16385, 16386, 16500, 20000)):
+        hl = padded_head(b"GET", b"/t", [hline(b"Host", 1, b"a")], size)
+        g = (b"GET", b"/t", True, hl)
+        s = print_head(*g)
+        cases.append(mkaccept([s], "accept-limit", g=g))
+        cases.append(mkaccept(cut_steps(s, [5000, 5000, 5000, 1383, 1, 1, 1000]), "accept-limit", g=g))
+    junk = b"GET / HTTP/1.1\r\nHost: a\r\nx: " + b"a" * 40000
+    cases.append(mkaccept([junk], "accept-limit"))
+    cases.append(mkaccept(cut_steps(junk, [16129, 100000]), "accept-limit", end=0))
+    # a stalled head: the code's own 5 s give an error (not a hang); a client that pauses for 1.2 s is served
+    g = (b"POST", b"/s?x=1", True, [hline(b"Host", 1, b"ex.org"), hline(b"Content-Length", 1, b"4"), hline(b"X-A", 0, b"b c")])
+    s = print_head(*g) + b"body"
+    cases.append(mkaccept([s[:17]], "accept-stall", dh=b"d"))
+    if not quick:
+        cases.append(mkaccept([s[:40]], "accept-stall", dh=b"d"))
+        cases.append(mkaccept([], "accept-stall", dh=b"d"))
+    cases.append(mkaccept([s[:30], 1200, s[30:]], "accept-slow", g=g))
+    cases.append(mkecho([s[:30], 1200, s[30:]], "echo-slow", g=g))
+    for n in (0, 1, 17, len(s) - 6):
+        cases.append(mkaccept([s[:n]] if n else [], "accept-eof", dh=b"d", end=0))
+    # grammar requests (any method token, optional whitespace, bare LF), bodies split early/late, pipelined next request
+    nconn = 70 if quick else 1500
+    for i in range(nconn):
+        m = rng.choice([x for x in METHODS if x != b"HEAD"])
+        cl = rng.choice([None, 0, 1, 3, 31, 100, 5000]) if m in BODY_METHODS or rng.random() < 0.2 else None
+        has_host = rng.random() < 0.9
+        hl = rand_headers(rng, with_host=has_host, cl=cl)
+        g = (m, rng.choice([t for t in TARGETS if b".." not in t and b"//" not in t and t.startswith(b"/")]), rng.random() < 0.7, hl)
+        if rng.random() < 0.6:
+            g = decorate(rng, g, lf_too=rng.random() < 0.5)
+        head = print_head(*g)
+        have = rng.choice([cl or 0, cl or 0, (cl or 0) + 10])
+        s = head + body_bytes(have, rng.randrange(50)) + (NEXT if rng.random() < 0.4 else b"")
+        sched = rng.choice([[len(s)], [len(head), len(s)], [len(head) + (cl or 0) // 2, len(s)], [len(head) - 1, 1, 1, len(s)],
+                            rand_sched(rng, len(s), 4)])
+        limit = rng.choice([BIG_LIMIT, BIG_LIMIT, BIG_LIMIT, 2, 50])
+        if i % 2 == 1 and any(h[0].lower() == b"range" for h in g[3]):
+            i = 0       # a Range header makes the pipeline answer 206 with a slice of the echo (C09's business): only through accept
+        if i % 2 == 0:
+            cases.append(mkaccept(cut_steps(s, sched), "accept", dh=None if has_host else rng.choice([None, b"d.host"]), limit=limit, g=g))
+        else:
+            cases.append(mkecho(cut_steps(s, sched), "echo", limit=limit, g=g))
+    # a body that is cut short by the client closing: what arrived is handed over
+    g = (b"PUT", b"/f", True, [hline(b"Host", 1, b"h"), hline(b"Content-Length", 1, b"10")])
+    s = print_head(*g) + b"01234"
+    cases.append(mkaccept([s[:-3], s[-3:]], "accept-short", end=0, g=g))
+    cases.append(mkecho([s[:-3], s[-3:]], "echo-short", end=0, g=g))
+    for bad_stream in (b"FOO\x00 / HTTP/1.1\r\nHost: a\r\n\r\n", b"GET / HTTP/1.1\r\nHost: a b\r\n\r\n", b"\x16\x03\x01\x02\x00\x01\x00\x01\xfc\x03\x03" + b"\x00" * 30):
+        cases.append(mkaccept([bad_stream], "accept-bad"))
+        cases.append(mkecho([bad_stream], "echo-bad"))
+
     # ---- stalled heads: every prefix of a valid head, the peer then closes / errors / hangs -------------------
     g = (b"POST", b"/s?x=1", True, [hline(b"Host", 1, b"ex.org"), hline(b"X-A", 0, b"b c")])
     s = print_head(*g)
@@ -317,6 +512,8 @@ def generate(rng, tier):
     ]
     for s in bad:
         for sc in ([max(1, len(s))], [1] * len(s), rand_sched(rng, max(1, len(s))), [3, 100000]):
+            if quick and len(sc) > 4000:
+                continue        # byte-by-byte over 16 KB costs the model 20 s (quadratic list appends); thorough runs it
             cases.append(mkreq(s, sc, "malformed", dh=rng.choice([None, b"d"]), mode=rng.choice([0, 2]), profile=rng.choice(PROFILES)))
     alphabet = b"GET / HTTP/1.1\r\n\r\n: \x00\xff\tPOSThost0123456789-_?#%[]@"
     nm = 600 if quick else 40000
@@ -342,7 +539,9 @@ def generate(rng, tier):
     nh = 300 if quick else 20000
     for _ in range(nh):
         hl = rand_headers(rng, with_host=rng.random() < 0.5)
-        block = b"".join(n + b":" + b" " * sp + v + b"\r\n" for n, sp, v in hl) + b"\r\n"
+        if rng.random() < 0.5:
+            hl = decorate(rng, (b"GET", b"/", True, hl), lf_too=rng.random() < 0.5)[3]
+        block = b"".join(print_hline(h) for h in hl) + b"\r\n"
         r = rng.random()
         if r < 0.4:
             cases.append(mkhdr(block + body_bytes(rng.randrange(0, 9)), hl, "headers", profile=rng.choice(PROFILES)))
@@ -372,19 +571,127 @@ def generate(rng, tier):
     return cases
 
 
-def _fields(x):
-    return x[1] if x[0] == "L" else None
+def _is_err(t):
+    """(L (N 1) ..): an error outcome, whatever its class"""
+    return t.startswith("(L (N 1)")
+
+
+def _view_ok(got, want):
+    """request fields (method, path, query, version, headers, authority) and the body outcome; a failed body read is compared
+    as a class (TimedOut / I/O error are not distinguished by the property)"""
+    if got[0:6] != want[0:6]:
+        return False
+    gb, wb = got[6], want[6]
+    if gb[1][0] == ("N", 1) and wb[1][0] == ("N", 1):
+        return True
+    return gb == wb
+
+
+def _concat_ok(outs):
+    return b"".join(o[1][1][1] for o in outs if o[1][0] == ("N", 0))
+
+
+def compare(c, i, m):
+    """implementation vs. model.  Compared: ok / error (every parse error is one class: the property says 'an error'), the
+    request fields, the body outcome, and for h1.request that the early bytes of the two agree where both have them (how many
+    bytes come with the head depends on the allocator's growth policy, which the theorems leave free: grow_ok) -- the exact
+    position of the early bytes in the stream and the bytes taken from the connection are judged by the specification."""
+    if i == "(L (N 2))" or m == "(L (N 2))":
+        return i == m
+    if c.comp in ("h1.accept", "h1.echo"):
+        xi, xm = kv.xparse(i), kv.xparse(m)
+        if xi[0] != "L" or len(xi[1]) != 2:
+            return False
+        oi, om = xi[1][0], xm[1][0]
+        if oi[1][0] != om[1][0]:
+            return False
+        if oi[1][0] == ("N", 0):
+            return _view_ok(oi[1][1][1], om[1][1][1])
+        return True
+    if c.comp == "h1.request":
+        if _is_err(i) or _is_err(m):
+            return _is_err(i) and _is_err(m)
+        xi, xm = kv.xparse(i), kv.xparse(m)
+        if xi[1][0] != ("N", 0) or xm[1][0] != ("N", 0):
+            return i == m
+        gi, gm = xi[1][1][1], xm[1][1][1]
+        ei, em = gi[6][1], gm[6][1]
+        n = min(len(ei), len(em))
+        return _view_ok(gi[0:6] + [gi[7]], gm[0:6] + [gm[7]]) and ei[:n] == em[:n]
+    if c.comp == "h1.headers":
+        return i == m or (_is_err(i) and _is_err(m))
+    if c.comp == "h1.body":
+        xi, xm = kv.xparse(i), kv.xparse(m)
+        if xi[0] == "L" and len(xi[1]) == 2 and xi[1][0][1][0] == ("N", 1) and xm[1][0][1][0] == ("N", 1):
+            return True
+        return i == m
+    if c.comp == "h1.poll":
+        xi, xm = kv.xparse(i), kv.xparse(m)
+        if xi[0] != "L" or len(xi[1]) != 2 or xi[1][1] != xm[1][1]:
+            return False
+        oi, om = xi[1][0][1], xm[1][0][1]
+        return len(oi) == len(om) and all(a == b or (a[1][0] == ("N", 1) and b[1][0] == ("N", 1)) for a, b in zip(oi, om))
+    return i == m
 
 
 def spec_ok(c, i, s):
     if i == "(L (N 2))":
         return False            # a panic is never acceptable (C02)
+    if c.comp == "h1.poll":
+        # the declared body as far as it is delivered, and how much of it is on the connection: everything handed out,
+        # in whatever pieces, is a prefix of the first; never more than the second is taken; a read with a non-empty window
+        # says 'end of file' only at the end of the body (or of what the peer delivered); a drain that succeeds leaves the
+        # connection right behind the body
+        xs, xi = kv.xparse(s), kv.xparse(i)
+        body, on_conn = xs[1][0][1], xs[1][1][1]
+        outs, consumed = xi[1][0][1], xi[1][1][1]
+        ops = c.x[1][5][1]
+        got = b""
+        cut = False                      # a read_to_bytes with a limit has discarded the rest of the body
+        for op, o in zip(ops, outs):
+            if o[1][0] != ("N", 0):
+                break
+            piece = o[1][1][1]
+            if cut and piece:
+                return False             # after read_to_bytes / drain the rest of the body is gone
+            if op[0] == "N":
+                if len(piece) > op[1]:
+                    return False
+                if op[1] > 0 and not piece and not cut and len(got) < len(body):
+                    return False
+            elif not op[1]:
+                cut = True               # drain: the body is given up, nothing is handed out after it
+            elif op[1]:
+                if len(piece) > op[1][0][1]:
+                    return False
+                if op[1][0][1] > 0:
+                    if not cut and piece != body[len(got):len(got) + op[1][0][1]]:
+                        return False
+                    cut = True
+            got += piece
+            if not body.startswith(got):
+                return False
+        if consumed > on_conn:
+            return False
+        if len(outs) == len(ops) and outs and ops[-1] == ("L", []) and outs[-1][1][0] == ("N", 0) and consumed != on_conn:
+            return False
+        return True
     if s == "(L (N 7))":
         return True
-    if s == "(L (N 1))":
-        return i.startswith("(L (N 1) ")
-    if s.startswith("(L (N 1) "):
-        return i == s           # the segmentation-blind specification names the error class
+    if c.comp in ("h1.accept", "h1.echo"):
+        xi = kv.xparse(i)
+        if xi[0] != "L" or len(xi[1]) != 2:
+            return False
+        o = xi[1][0]
+        tag = o[1][0]
+        if tag == ("N", 3):
+            return False        # no result within 20 s: a hang
+        if s.startswith("(L (N 1)"):
+            return tag == ("N", 1)
+        want = kv.xparse(s)[1][1][1]
+        return tag == ("N", 0) and _view_ok(o[1][1][1], want[0:7])
+    if s.startswith("(L (N 1)"):
+        return _is_err(i)       # 'an error': the property does not name the class
     if c.comp == "h1.request":
         xs = kv.xparse(s)
         xi = kv.xparse(i)
@@ -395,7 +702,17 @@ def spec_ok(c, i, s):
         k = want[7][1]
         stream = c.x[1][4][1]
         early = got[6][1]
-        return got[0:6] + [got[7]] == want[0:7] and early == stream[k:k + len(early)]
+        if not (_view_ok(got[0:6] + [got[7]], want[0:7]) and early == stream[k:k + len(early)]):
+            return False
+        if got[7][1][0] == ("N", 0):
+            # nothing behind the body is taken from the connection (what came with the head apart)
+            return got[8][1] == k + max(len(early), len(got[7][1][1][1]))
+        return True
+    if c.comp == "h1.body":
+        xi, xs = kv.xparse(i), kv.xparse(s)
+        if xs[1][0][1][0] == ("N", 1):
+            return xi[1][0][1][0] == ("N", 1)
+        return i == s
     return i == s
 
 
@@ -406,6 +723,10 @@ def signature(c, m):
 
 def classify(c, i):
     return None
+
+
+def out_of_domain(c, i):
+    return i.startswith("(L (N 96)")
 
 
 def directed(rng, mismatches):
@@ -436,61 +757,103 @@ def describe(c):
     if c.comp == "h1.request":
         return {"component": c.comp, "kind": c.meta.get("kind"), "profile": c.profile, "stream": kv.pretty(x[4], 100),
                 "schedule": kv.pretty(x[5], 80), "max_len": x[2][1], "end_mode": x[3][1], "limit": x[6][1]}
+    if c.comp in ("h1.accept", "h1.echo"):
+        st = x[1] if c.comp == "h1.accept" else x[0]
+        return {"component": c.comp, "kind": c.meta.get("kind"), "steps": kv.pretty(st, 160),
+                "end": (x[3] if c.comp == "h1.accept" else x[2])[1]}
     return {"component": c.comp, "kind": c.meta.get("kind"), "profile": c.profile, "input": kv.pretty(c.x, 160)}
 
 
 RULE = ("scripted AsyncRead (delivers the stream in the burst sizes of a schedule, then closes / errors / pends) into the real "
-        "kvarn_async::read::request and kvarn::application::Http1Body::read_to_bytes, plus kvarn_utils::parse::headers directly, in the debug and the "
-        "overflow-unchecked build; compared with the extracted Coq model (correspondence: method, path, query, version, sorted header list, authority, "
-        "early body bytes, body outcome, bytes taken from the connection, or the error class) and with the executable specification (oracle: for a "
-        "request printed from the grammar the fields and the body must be exactly the printed ones (expect); for every other stream the fields, the "
-        "body outcome or the error class must be serve_spec of the delivered bytes, a function without schedule (theorem segmentation_blind); the "
-        "early body bytes must be the bytes of the stream right after the head; no blank line within min(16 KiB, delivered bytes) => error; never a "
-        "panic). Generators: the short messages also with bare-LF line ends in four mixes x every cut position; grammar requests x every cut position (2 and 3 pieces, byte-by-byte) for short messages, random "
+        "kvarn_async::read::request and kvarn::application::Http1Body (read_to_bytes; as AsyncRead with scripted window sizes; drain), "
+        "kvarn_utils::parse::headers directly, in the debug and the overflow-unchecked build; the real HttpConnection::accept (the code's own "
+        "16 KiB head limit, 5 s head time-out, scheme and parse_http_1 glue) on the server end of a loopback TCP pair, and "
+        "kvarn::handle_connection with a host whose only extension answers with the request its handler saw and the body it got from "
+        "read_to_bytes. Compared with the extracted Coq model (correspondence: ok / error, method, path, query, version, sorted header "
+        "list, authority, body outcome, agreement of the early bytes, per-call outcomes and bytes taken for h1.poll) and with the executable "
+        "specification (oracle: for a request printed from the grammar -- any method token of <= 7 bytes, optional whitespace SP/HTAB "
+        "before and after every value, CRLF or bare LF per line -- the fields and the body must be exactly the printed ones (expect); for "
+        "every other stream the fields and the body outcome must be serve_spec of the delivered bytes, a function without schedule "
+        "(theorem segmentation_blind), or an error where it says error; the early bytes must be the bytes of the stream right after the "
+        "head and nothing behind the body may be taken from the connection (consumed = head + max(early, body)); no blank line within "
+        "min(16 KiB, delivered bytes) => error; over loopback: an error or the request within 20 s, never a hang; Http1Body as AsyncRead: "
+        "whatever the calls hand out is a prefix of the declared body, pieces no longer than their windows, end of file only at the end "
+        "of the body, never more than content-length - early bytes taken, a successful drain leaves the connection right behind the body "
+        "and the body unreadable; never a panic). Generators: short messages x every cut position (2 and 3 pieces, byte-by-byte), also "
+        "with bare-LF line ends and with tabs/spaces around the values; grammar requests with random whitespace decorations and random "
         "multi-cut schedules, heads of size 511..16385 with bursts that land the buffer on the capacity thresholds, other head limits, "
-        "content-length {0,1,31,32,33,100,5000} x trailing pipelined request x caller limits x early/late splits, truncated heads and bodies "
-        "(EOF / error / stall), 100 hand-written malformed heads, random mutations, Host values and targets the http crate refuses, "
-        "bounded-exhaustive header blocks over {a : SP CR LF}. distinct_nontrivial counts distinct (component, input, model outcome prefix) triples")
+        "content-length {0,1,31,32,33,100,5000} x trailing pipelined request x caller limits x early/late splits, truncated heads and "
+        "bodies (EOF / error / stall), 100 hand-written malformed heads, random mutations, Host values and targets the http crate refuses, "
+        "bounded-exhaustive header blocks over {a : SP CR LF}, random sequences of read windows / read_to_bytes / drain over random "
+        "early/late splits, loopback: heads of 16383/16384/16385 bytes and an unterminated 40 KB head through the real accept, a client that "
+        "stops in the middle of the head (the real 5 s), one that pauses 1.2 s, grammar requests with bodies and pipelined successors. "
+        "distinct_nontrivial counts distinct (component, input, model outcome prefix) triples")
 ASSUMPTIONS = [
     "read schedule = list of burst sizes; each read returns min(burst, window, bytes left) bytes; the exact theorems (parse_print*, "
-    "schedule_independent*, segmentation_blind, body_*) take schedules of non-empty bursts (sched_pos: a 0-byte read is how a peer says EOF, "
-    "modelled by the end mode), head_limit / stalled_head hold for every schedule",
+    "schedule_independent*, ows_independent, segmentation_blind, body_exact, body_any_schedule, body_read_complete, body_drain_aligns) take "
+    "schedules of non-empty bursts (sched_pos: a 0-byte read is how a peer says EOF, modelled by the end mode); head_limit, stalled_head and "
+    "body_read_capped hold for every schedule",
     "BytesMut::reserve, when it reallocates, yields a capacity >= len + additional (theorems hold for every such growth function; the "
-    "correspondence instantiates it with Vec's amortised doubling max(2*cap, len+additional, 8))",
+    "model run instantiates it with Vec's amortised doubling max(2*cap, len+additional, 8); the comparison with the code does not depend on "
+    "it: how many body bytes arrive with the head is compared only where both sides have them)",
     "http 1.5.0: Method::from_bytes, HeaderName::from_bytes, HeaderValue::from_maybe_shared/to_str, Uri::from_maybe_shared (scheme http/https, "
     "authority scan, path/query classes, UTF-8 check) are transcribed into the model and validated by the differential run, not proved against "
-    "the crate; parse_print takes the crate's verdict on the target as the hypothesis parse_uri .. = Some ..",
+    "the crate; parse_print* take the crate's verdict on the target as the hypothesis parse_uri .. = Some ..",
     "HeaderMap::insert's MAX_SIZE (32768 entries) panic is not modelled: unreachable below 96 KiB of head",
-    "a reader that pends for ever during the body is cut off by the harness after 60 ms and reported as TimedOut, which is what kvarn's own 30 s "
-    "tokio timeout produces; the head timeout is the function's parameter (15 ms in the harness, 5 s in kvarn)",
-    "Http1Body is observed through read_to_bytes (what Body::read_to_bytes gives to handlers); its raw AsyncRead::poll_read is not part of the theorems",
+    "read_to_bytes' inner reads (through tokio's Take into Http1Body::poll_read) are modelled as reads of the connection itself: there "
+    "poll_read's own cap content_length - offset is never below Take's limit; the differential run covers the combination",
+    "a reader that pends for ever during the body is cut off by the harness after 60 ms (scripted reader) resp. 10 s (loopback) and reported as "
+    "TimedOut, which is what kvarn's own 30 s tokio timeout produces; the head time-out of the scripted runs is the function's parameter "
+    "(15 ms), the loopback runs use kvarn's own 5 s: an error must arrive within 20 s, a client pausing 1.2 s must be served",
+    "over loopback the kernel decides the segmentation: the model reads the same bytes in one burst, which is the same view by theorem "
+    "segmentation_blind; error classes are compared as 'an error' (the property does not name them)",
+    "the cfg(not(feature = \"async-networking\")) copy of the reader in application.rs is not compiled in any supported feature set (https and "
+    "base both enable async-networking) and is not checked",
 ]
 TRUSTED = ["modelled: async/src/lib.rs read_more/read_headers/contains_two_newlines/read::request, utils/src/parse.rs headers/version, "
-           "utils/src/lib.rs valid_method/valid_version/get_body_length_request, src/application.rs Http1Body::read_to_bytes over "
-           "async/src/lib.rs read_to_end_or_max and tokio's Take"]
-LEVEL_TEXT = ("Machine-checked Coq theorems (11, no axioms) over a byte-level executable model of the HTTP/1 request reader (read loop with "
-              "buffer growth through an arbitrary growth function, request-line state machine, header parser with its absolute indices, URI "
-              "assembly, body length, body reader) driven by an arbitrary read schedule (list of burst sizes). parse_print: for every request "
-              "of the grammar (token method of <= 7 letters, target without SP/CR/LF, HTTP/1.0|1.1, header lines name ':' SP^k value CRLF for "
-              "every k >= 0, names unique up to case, visible-ASCII values) followed by any bytes, every schedule delivering head + body, every "
-              "growth function and every end mode, the reader returns exactly method, path, query, version, header list, authority and the "
-              "first min(content-length, limit) bytes after the blank line. parse_print_head: the same for the parser alone, with the bytes "
-              "after the head returned unchanged. parse_print_lf / parse_print_head_lf: the same when the request line, any of the header "
-              "lines and the blank line end in a bare LF instead of CRLF (what the code accepts). schedule_independent: two schedules / "
-              "growth functions / end modes give the same request and body. segmentation_blind: for EVERY byte stream the observable result "
-              "(fields + body outcome, or the error class) equals serve_spec of the delivered bytes, a function without schedule or "
-              "capacities, so malformed heads too are read independently of the segmentation (schedule_independent_any_stream). head_limit / "
+           "utils/src/lib.rs valid_method/valid_version/get_body_length_request, src/application.rs Http1Body::{new, poll_read, "
+           "read_to_bytes, drain} over async/src/lib.rs read_to_end_or_max and tokio's Take; exercised unmodelled (loopback runs, result "
+           "predicted by the model of read::request + Http1Body with max_len = 16384, scheme http): src/application.rs "
+           "HttpConnection::accept / request::parse_http_1, src/lib.rs handle_connection up to the Prepare extension"]
+LEVEL_TEXT = ("Machine-checked Coq theorems (23, no axioms) over a byte-level executable model of the HTTP/1 request reader (read loop with "
+              "buffer growth through an arbitrary growth function, early method check, request-line state machine, header parser with its "
+              "absolute indices and whitespace trimming, URI assembly, body length, body reader, Http1Body as a state machine with poll_read / "
+              "read_to_bytes / drain) driven by an arbitrary read schedule (list of burst sizes). parse_print_ows: for every request of the "
+              "grammar -- ANY method token of <= 7 bytes, target without SP/CR/LF, HTTP/1.0|1.1, header lines name ':' OWS value OWS with OWS "
+              "any mix of spaces and tabs (also none), each line ending in CRLF or a bare LF, names unique up to case, values = RFC 9110 "
+              "field values (visible bytes, obs-text, inner SP/HTAB) -- followed by any bytes, every schedule delivering head + body, every "
+              "growth function and every end mode, the reader returns exactly method, path, query, version, header list WITHOUT the optional "
+              "whitespace, authority and the first min(content-length, limit) bytes after the blank line; parse_print_head_ows: the parser "
+              "alone, with the bytes after the head returned unchanged; parse_print / parse_print_lf / parse_print_head(_lf) are the instances "
+              "without added whitespace; ows_independent / schedule_independent: two spellings, schedules, growth functions, end modes give the "
+              "same request and body; method_token_starts: a token of <= 7 bytes followed by a space passes the early start check. "
+              "segmentation_blind: for EVERY byte stream the observable result (fields + body outcome, or the error class) equals serve_spec "
+              "of the delivered bytes, a function without schedule or capacities (schedule_independent_any_stream). head_limit / "
               "stalled_head: no blank line within max_len (16384) bytes resp. within the delivered bytes => an error, for every schedule "
               "incl. 0-byte reads and every growth function whatsoever. body_exact / body_any_schedule: read_to_bytes returns exactly "
               "min(content-length, limit) bytes and leaves the rest of the stream (the next request) on the connection; short bodies end as "
-              "EOF-prefix / TimedOut / I/O error. All by induction over the stream / the schedule with invariants on the reader state, none "
-              "by enumeration. The model is tied to the code on every run by a differential run of the real functions over a scripted AsyncRead.")
+              "EOF-prefix / TimedOut / I/O error. body_read_capped: Http1Body as AsyncRead, for EVERY sequence of read windows, every stream, "
+              "schedule and end mode, hands out a prefix of the declared body, takes from the connection exactly the part of it that did not "
+              "come with the head, and its unread counter says what is left; body_read_complete: content-length reads of non-empty windows "
+              "give exactly the body, then end of file for ever; body_rest_exact: read_to_bytes after any reads returns the rest of the "
+              "body; body_drain_aligns: after any reads drain leaves the connection at the next request and the body unreadable. ows_value_refuted, method_token_refuted, body_read_capped_refuted, body_rest_refuted: the "
+              "witnesses that these statements were false of the code before this round's five repairs (Model/Http1ReadOld.v). All general "
+              "statements by induction over the stream / the schedule / the window list with invariants on the reader state, none by "
+              "enumeration. The model is tied to the code on every run by a differential run of the real functions over a scripted AsyncRead "
+              "and of the real HttpConnection::accept / handle_connection over loopback.")
 LEVEL_NOTE = ("Trusted: Coq kernel, extraction (reduced by the in-kernel recheck sample), the hand transcription of the anchored Rust functions as "
-              "validated by the differential run (exact equality incl. early bytes and bytes consumed), the http/bytes/tokio crates below the "
-              "modelled functions (http's Uri/HeaderName/HeaderValue/Method checks are transcribed, parse_print takes the Uri verdict as the "
-              "hypothesis expect .. = Some ..). Not covered: optional whitespace other than SP after the colon (a TAB stays in the value) and "
-              "trailing SP (kept in the value); requests whose names repeat; Http1Body as raw AsyncRead (only read_to_bytes). Seven defects were "
-              "found and repaired (fixed: lines in known-findings.txt); the theorems are about the repaired code.")
+              "validated by the differential run (ok/error, fields, body outcome, per-call outcomes of Http1Body; error classes and the split "
+              "early/late are not compared exactly, the oracle bounds them), the http/bytes/tokio crates below the modelled functions (http's "
+              "Uri/HeaderName/HeaderValue/Method checks are transcribed, parse_print* take the Uri verdict as the hypothesis expect .. = Some ..). "
+              "The constants 16 KiB and 5 s and the glue of parse_http_1 are tied by loopback runs through the real accept, not modelled as "
+              "code. Not covered: requests whose header names repeat (judged by segmentation_blind only); methods of 8 bytes and more "
+              "(PROPFIND and PROPPATCH are in utils::valid_method but longer than the parser's 7-byte method buffer: refused with "
+              "InvalidVersion, outside the property's 'method up to 7 letters'); obs-fold (a continuation line is an error: RFC 9112 allows "
+              "that); the body time-out of 30 s (not a clause); the cfg(not(async-networking)) duplicate of the reader. Twelve defects were "
+              "found and repaired in all (fixed: lines in known-findings.txt), five of them in this round: optional whitespace kept in header "
+              "values (Content-Length: 3<SP> => body length 0, body read as the next request), extension methods refused, Http1Body as "
+              "AsyncRead reading past content-length, read_to_bytes starting over after a partial read, drain leaving the body readable; the "
+              "theorems are about the repaired code.")
 TECHNIQUE = "Coq proof (model satisfies the specification for all requests, schedules and growth functions) + differential correspondence model vs. implementation"
 EXHAUSTIVE = False
 
@@ -519,4 +882,28 @@ THEOREMS = [
      r"forall grow mode early (cl limit : N) stream (sched : list nat), grow_ok grow -> sched_pos sched -> (N.to_nat (N.min cl limit) <= length early + Nat.min (sum_sched sched) (length stream))%nat -> exists r', read_to_bytes grow mode early cl limit (mk_reader stream sched) = Ok (firstn (N.to_nat (N.min cl limit)) (early ++ stream), r') /\ rd_data r' = skipn (N.to_nat (N.min cl limit) - length early) stream"),
     ("body_any_schedule",
      r"forall grow mode early (cl limit : N) stream (sched : list nat), grow_ok grow -> sched_pos sched -> match body_spec mode early cl limit (firstn (sum_sched sched) stream) with | Ok b => exists r', read_to_bytes grow mode early cl limit (mk_reader stream sched) = Ok (b, r') | Err e => read_to_bytes grow mode early cl limit (mk_reader stream sched) = Err e | Panic => False end"),
+    ("parse_print_ows",
+     r"forall grow mode https dh (max_len : nat) limit (l0 : bool) (ds : list deco) (lb : bool) (g : greq) rest (sched : list nat) e, grow_ok grow -> sched_pos sched -> greq_ok g = true -> decos_ok ds (g_headers g) = true -> (length (print_head_d l0 ds lb g) <= max_len)%nat -> expect https dh limit g rest = Some e -> (NEED <= length rest)%nat -> (length (print_head_d l0 ds lb g) + NEED <= sum_sched sched)%nat -> exists sv, serve grow mode https dh max_len limit (print_head_d l0 ds lb g ++ rest) sched = Ok sv /\ observed sv = Some e".replace("NEED", NEED)),
+    ("parse_print_head_ows",
+     r"forall https dh (l0 : bool) (ds : list deco) (lb : bool) (g : greq) extra host auth path query, greq_ok g = true -> decos_ok ds (g_headers g) = true -> g_host dh g = Some host -> parse_uri https host (g_target g) = Some (auth, path, query) -> parse_request https dh (print_head_d l0 ds lb g ++ extra) = Ok (mk_request (g_method g) path query (if g_v11 g then 11 else 10) (g_hmap g) auth extra)"),
+    ("ows_independent",
+     r"forall grow1 grow2 mode1 mode2 https dh (max_len : nat) limit (l0 l0' : bool) (ds ds' : list deco) (lb lb' : bool) (g : greq) rest (sched1 sched2 : list nat), grow_ok grow1 -> grow_ok grow2 -> sched_pos sched1 -> sched_pos sched2 -> greq_ok g = true -> decos_ok ds (g_headers g) = true -> decos_ok ds' (g_headers g) = true -> (length (print_head_d l0 ds lb g) <= max_len)%nat -> (length (print_head_d l0' ds' lb' g) <= max_len)%nat -> expect https dh limit g rest <> None -> (NEED <= length rest)%nat -> (length (print_head_d l0 ds lb g) + NEED <= sum_sched sched1)%nat -> (length (print_head_d l0' ds' lb' g) + NEED <= sum_sched sched2)%nat -> exists sv1 sv2, serve grow1 mode1 https dh max_len limit (print_head_d l0 ds lb g ++ rest) sched1 = Ok sv1 /\ serve grow2 mode2 https dh max_len limit (print_head_d l0' ds' lb' g ++ rest) sched2 = Ok sv2 /\ observed sv1 = observed sv2 /\ observed sv1 <> None".replace("NEED", NEED)),
+    ("method_token_starts",
+     r"forall (m rest : bytes), forallb tchar m = true -> (length m <= 7)%nat -> m <> [] -> valid_start (m ++ SP :: rest) = true"),
+    ("body_read_capped",
+     r"forall mode early (cl : nat) stream (sched ws : list nat) data b' r' e, hb_reads mode (hb_new early cl) (mk_reader stream sched) ws = (data, b', r', e) -> data = firstn (length data) (firstn cl (early ++ stream)) /\ (length data <= cl)%nat /\ rd_data r' = skipn (length data - length early) stream /\ hb_unread b' = (cl - length early - (length data - length early))%nat"),
+    ("body_read_complete",
+     r"forall mode early (cl : nat) stream (sched ws : list nat), sched_pos sched -> Forall (fun w => (0 < w)%nat) ws -> (cl <= length ws)%nat -> (cl <= length early + Nat.min (sum_sched sched) (length stream))%nat -> exists b' r', hb_reads mode (hb_new early cl) (mk_reader stream sched) ws = (firstn cl (early ++ stream), b', r', None) /\ rd_data r' = skipn (cl - length early) stream /\ hb_unread b' = 0%nat /\ (forall w, hb_read mode b' r' w = Ok ([], b', r'))"),
+    ("body_drain_aligns",
+     r"forall mode early (cl : nat) stream (sched ws : list nat) data b' r', sched_pos sched -> Forall (fun w => (0 < w)%nat) ws -> (cl <= length early + Nat.min (sum_sched sched) (length stream))%nat -> hb_reads mode (hb_new early cl) (mk_reader stream sched) ws = (data, b', r', None) -> exists b'' r'', hb_drain mode b' r' = Ok (b'', r'') /\ rd_data r'' = skipn (cl - length early) stream /\ hb_unread b'' = 0%nat /\ (forall w, hb_read mode b'' r'' w = Ok ([], b'', r''))"),
+    ("body_rest_exact",
+     r"forall grow mode early (cl : nat) limit stream (sched ws : list nat) data b' r', grow_ok grow -> sched_pos sched -> Forall (fun w => (0 < w)%nat) ws -> (cl <= length early + Nat.min (sum_sched sched) (length stream))%nat -> hb_reads mode (hb_new early cl) (mk_reader stream sched) ws = (data, b', r', None) -> exists b'' r'', hb_read_to_bytes grow mode b' r' limit = Ok (firstn (N.to_nat limit) (skipn (length data) (firstn cl (early ++ stream))), b'', r'')"),
+    ("ows_value_refuted",
+     r'exists (h : hline) (d : deco) m e, name_ok (hl_name h) = true /\ value_ok (hl_value h) = true /\ deco_ok d h = true /\ parse_headers_old (print_hlines_d [d] [h] ++ crlf) = Ok (m, e) /\ hm_get (lower (hl_name h)) m <> Some (hl_value h) /\ body_length (B "POST") m = 0 /\ body_length (B "POST") [(lower (hl_name h), hl_value h)] = 3'),
+    ("method_token_refuted",
+     r"exists m rest, forallb tchar m = true /\ (length m <= 7)%nat /\ m <> [] /\ valid_start_old (m ++ SP :: rest) = false"),
+    ("body_read_capped_refuted",
+     r"exists mode early cl stream sched w got b' r', hb_read_old mode (hb_new early cl) (mk_reader stream sched) w = Ok (got, b', r') /\ (cl < length got)%nat"),
+    ("body_rest_refuted",
+     r"exists mode early cl stream sched w got b' r' body r'', hb_read_old mode (hb_new early cl) (mk_reader stream sched) w = Ok (got, b', r') /\ hb_read_to_bytes_old vec_grow mode b' r' 100 = Ok (body, r'') /\ got ++ body <> firstn cl (early ++ stream) /\ (cl < length (got ++ body))%nat"),
 ]
